@@ -95,6 +95,7 @@ type Pred struct {
 	Text   string
 	Ret    string // for ufunc: result type name
 	UF     bool
+	Foldable bool // ghost flag G$ready[x]; body is proved when the flag is established (ensures of the function under verification) and assumed when it is required at entry
 	Opaque bool // expanded only in functions that `reveal` it; elsewhere an uninterpreted predicate over value snapshots
 }
 
@@ -182,12 +183,15 @@ func (cs *ContractSet) parseFile(fname, src string) error {
 		t := l.text
 		word, rest := splitWord(t)
 		switch word {
-		case "func", "extern", "iface":
+		case "func", "extern", "iface", "functype":
 			key := strings.TrimSpace(rest)
+			if word == "functype" {
+				key = "functype " + key
+			}
 			if _, dup := cs.ByKey[key]; dup {
 				return fail("duplicate contract block for %s", key)
 			}
-			cur = &Contract{Key: key, Extern: word == "extern", Iface: word == "iface", Loops: map[int]*LoopSpec{}, Line: where}
+			cur = &Contract{Key: key, Extern: word == "extern" || word == "functype", Iface: word == "iface", Loops: map[int]*LoopSpec{}, Line: where}
 			cs.ByKey[key] = cur
 			pendingKF = nil
 			continue
@@ -248,6 +252,15 @@ func (cs *ContractSet) parseFile(fname, src string) error {
 				return fail("lemma: %v", err)
 			}
 			cs.Lemmas[m[1]] = append(cs.Lemmas[m[1]], &Clause{Text: m[3], Expr: e, Line: where})
+			continue
+		case "foldable":
+			// foldable <name>(<param> <type>) = <body>: a ghost readiness flag with a one-level meaning (see effects.go)
+			p, err := parsePred(rest, false)
+			if err != nil {
+				return fail("%v", err)
+			}
+			p.Foldable = true
+			cs.Preds[p.Name] = p
 			continue
 		case "opaque":
 			w2, r2 := splitWord(rest)
